@@ -578,7 +578,7 @@ for _method, _step in (('validate_pre_sds_if_applicable', 'pre'), ('validate_pos
                ghosts=dict(step=Const(_step)),
                params=dict(self=Inst(svh_validators.PreOrPostSdsSvhValidationErrorValidator,
                                      validator=Iface(ValidatorI)), environment=Iface(PathEnvI)),
-               returns=c01.SVH,
+               returns=c01.SVH, inline=True,      # (call sites -- the *FromParts instructions, C03b -- see the body)
                ensures={
                    'runs exactly that part of what it wraps': lambda self, environment, trace, step:
                    [(e[0], e[1], e[2]) for e in _all_validation_calls(trace)]
